@@ -463,6 +463,47 @@ def carry_history(focus):
     return h.ops
 
 
+def winch_history(focus):
+    """stand-alone terminals observing SIGWINCH next to the instance (`new … tt`): a second terminal joins / leaves the
+    observers (tickit_term_observe_sigwinch) after the loop has started watching SIGWINCH; the signal then arrives
+    before the next iteration, inside the wait, or from a callback"""
+    h = Hist(focus)
+    h.ops[0] += " tt"
+    stats["histories_tt"] += 1
+    observing = False
+    for _ in range(rng.choice([0, 1, 1, 2])):
+        k = h.slot("signal"); f = h.flags(); behs = []
+        if rng.random() < 0.3:
+            h.add_beh(k, "signal", 0, behs)
+        h.ops += behs
+        h.ops.append(f"signal {k} 28 {f}")
+        h.watched_sigs.add(28); h.persistent.append(k); h.top_live.append(k)
+    for _ in range(rng.choice([0, 1, 2])):
+        h.reg_top()
+    for _ in range(rng.choice([1, 2, 2, 3])):
+        c = rng.random()
+        if c < 0.75:
+            observing = not observing
+        h.ops.append(f"obs {1 if observing else 0}"); stats["obs"] += 1
+        for _ in range(rng.randint(0, 2)):
+            h.step()
+        c = rng.random()
+        if c < 0.5:
+            h.ops.append("raise 28"); stats["raise_pre"] += 1
+        elif c < 0.75:
+            h.ops.append("inpoll 28"); stats["raise_inpoll"] += 1
+        elif h.watched_sigs:
+            h.ops.append(f"raise {rng.choice(sorted(h.watched_sigs))}"); stats["raise_pre"] += 1
+        for _ in range(rng.choice([1, 2, 3])):
+            h.ops.append(rng.choice(["tick", "tick", "tick", "tickhang"])); stats["tick"] += 1
+        if len(h.ops) > 36:
+            break
+    h.finish()
+    stats["histories"] += 1
+    stats["ops_len_%02d" % (len(h.ops) // 10 * 10)] += 1
+    return h.ops
+
+
 def sigchld_history(focus):
     """SIGCHLD watched by the application next to process watches: the library's own SIGCHLD watcher (it reaps the
     children and invokes the process watches) runs among the user's watchers of the same signal; four and more
@@ -541,6 +582,8 @@ def random_history(focus):
         return carry_history(focus)
     if c < 0.36:
         return sigchld_history(focus)
+    if c < 0.42:
+        return winch_history(focus)
     fb = rng.random() < 0.25
     h = Hist(focus, fb)
     if fb:
